@@ -4,6 +4,9 @@ import json, subprocess
 
 CHECKS = {
  # id: (level, engine, technique, text, note, design_ref)
+ "C03": ("model_checking", "E1", "explicit-state search (stateright BFS) over construction-kit segment sequences per grammar; real parser executed in every state against blocks known by construction",
+         "for each of the 23 grammars (all 39 registered suffixes): every sequence of ≤3 (thorough ≤4) segments — code, string/markup decoys holding tag text, plain comments, start/end tags at every offset of 1- and 3-line comments of every comment form (line, block, doc, decorated, Markdown link-reference with all three title delimiters, HTML/XML), two tags per comment — closed into a balanced file, rendered LF and CRLF, with ASCII and multi-byte text around tags; attributes, line/byte column of `<`, exact content, pairing and source order compared with the construction",
+         "tree-sitter grammars trusted on the kits' well-formed scaffolds (kit self-test); one leading line terminator of a content is don't-care; bounded scope", "§2 C03"),
  "C06": ("model_checking", "E1", "explicit-state search (stateright BFS) over content-line sequences, real validator executed in every state against a reference sorter",
          "every sequence of ≤4 (thorough ≤5) content lines over a 16-line alphabet (ordered, equal, prefix-related, indented, trailing blank, blank, numeric-looking, pattern lines, case) plus an extended unicode/number alphabet, under every direction spelling × pattern × format; the real parse+validate pipeline runs in every state and must agree with the reference on presence, uniqueness and location of the diagnostic",
          "regex crate trusted for which substring matches; tree-sitter trusted to deliver one-line # comments; bounded scope (longer blocks and other alphabets are not covered)", "§2 C06–C09"),
